@@ -5,7 +5,7 @@ TIER=${1:-quick}; shift
 W=/tmp/seedrun.$$
 git -C /repo worktree add -q --detach $W HEAD || exit 3
 trap 'git -C /repo worktree remove --force $W' EXIT
-IDS="$@"; [ -z "$IDS" ] && IDS=$(ls /verif/seeded | grep -E '^C[0-9]+_[ab]$')
+IDS="$@"; [ -z "$IDS" ] && IDS=$(ls /verif/seeded | grep -E '^C[0-9]+_[a-z]$')
 for s in $IDS; do
   prop=${s%_*}
   git -C $W checkout -q -- . 
